@@ -26,7 +26,7 @@ ASSIGN = {"add_assign": "add", "sub_assign": "sub", "mul_assign": "mul", "div_as
 IDENT = {"clone", "to_f64", "unwrap", "expect", "into", "from", "deref", "to_owned", "borrow", "as_ref", "raw",
          "from_usize", "from_u8", "from_u16", "from_u32", "from_u64", "from_f64", "from_i32", "to_usize", "copied", "cloned",
          "from_f32", "to_f32", "from_usize_unchecked", "unwrap_unchecked", "const_raw", "n64", "new", "unchecked_new"}
-FN1 = {"abs", "ln", "exp", "sqrt", "recip", "log10", "log2", "ln_1p", "exp_m1", "signum", "floor", "ceil", "round", "sin", "cos"}
+FN1 = {"fract", "abs", "ln", "exp", "sqrt", "recip", "log10", "log2", "ln_1p", "exp_m1", "signum", "floor", "ceil", "round", "sin", "cos"}
 MIR_BIN = {"Add": "add", "Sub": "sub", "Mul": "mul", "Div": "div"}
 CMPS = {"eq": "==", "ne": "!=", "lt": "<", "le": "<=", "gt": ">", "ge": ">=",
         "Eq": "==", "Ne": "!=", "Lt": "<", "Le": "<=", "Gt": ">", "Ge": ">="}
@@ -305,7 +305,9 @@ def conv(t):
     if k == "div": return conv(t[1]) / conv(t[2])
     if k == "neg": return -conv(t[1])
     if k == "pow": return conv(t[1]) ** int(t[2])
-    if k == "fn": return FN[t[1]](conv(t[2]))
+    if k == "fn":
+        if t[1] in FN: return FN[t[1]](conv(t[2]))
+        return sp.Function(t[1])(conv(t[2]))
     if k == "real":   # symbol without sign assumption
         if t[1] not in syms: syms[t[1]] = sp.Symbol(t[1], real=True)
         return syms[t[1]]
